@@ -827,7 +827,7 @@ void generate(Program &prog, dsim::Config &cfg, dsim::Rng &pr, dsim::Rng &cr, in
   }
   prog.params = {prologue, W, static_cast<int64_t>(pr.below(1000)), static_cast<int64_t>(pr.below(3))};
   std::vector<Op> coord;
-  const int bursts = 1 + static_cast<int>(pr.below(3)) + (scale() >= 1 && pr.chance(1, 3) ? 2 : 0);
+  const int bursts = 1 + static_cast<int>(pr.below(3)) + (scale() >= 2 ? 3 : (scale() >= 1 && pr.chance(1, 3) ? 2 : 0));
   for (int b = 0; b < bursts; ++b) {
     Op o;
     o.kind = kForward;
@@ -839,7 +839,7 @@ void generate(Program &prog, dsim::Config &cfg, dsim::Rng &pr, dsim::Rng &cr, in
   prog.threads.push_back(coord);
   for (int s = 1; s <= W; ++s) {
     std::vector<Op> ops;
-    const int nops = 1 + static_cast<int>(pr.below(scale() >= 1 ? 6 : 4));
+    const int nops = 1 + static_cast<int>(pr.below(scale() >= 2 ? 8 : (scale() >= 1 ? 6 : 4)));
     for (int i = 0; i < nops; ++i) {
       Op o;
       const uint64_t x = pr.below(100);
